@@ -10,6 +10,8 @@ def collect_positions(j):
         ps += [(d["loc"][0], d["loc"][1]), (d["loc"][2], d["loc"][3])]
     for l in j.get("located", []):
         ps += [(l["loc"][0], l["loc"][1]), (l["loc"][2], l["loc"][3])]
+        for ch in l.get("children", []):
+            ps += [(ch[0], ch[1]), (ch[2], ch[3])]
 
     def walk(t):
         for n in t:
